@@ -632,6 +632,47 @@ def centre_pixel_sizes(check, prog):
                         out.append(x)
         return out
     ok = bool(steps('x')) and bool(steps('y'))
+    if ok:
+        # the weighting itself: relative to the y derivative, the x derivative
+        # carries the factor (s_y / s_x)**2 (direction of the physical gradient
+        # in pixel units), and is left alone when the pixels are square
+        from hpstatic.logic import resolve
+        from hpstatic.poly import Canon
+        canon = Canon()
+
+        def under(square):
+            def hyp(t):
+                if t[0] == 'call' and t[1] in ('numpy.isclose', 'numpy.allclose',
+                                               'math.isclose'):
+                    return square
+                if t[0] == 'cmp' and any(x[0] == 'call' and x[1] == 'len'
+                                         for x in (t[2], t[3])):
+                    return True           # an image has more than one row / column
+                return None
+            return [resolve(a, hyp) for a in args]
+        sq, ns = under(True), under(False)
+        sx = [x for x in steps('x')][0]
+        sy = [x for x in steps('y')][0]
+        sx, sy = intern(('idx', sx, num(0))), intern(('idx', sy, num(0)))
+        good = False
+        try:
+            for num_, den_ in ((ns[0], ns[1]), ):
+                # ns[0] / sq[0] is the weight of the x derivative, ns[1] / sq[1]
+                # that of the y derivative
+                wx = intern(('bin', '/', ns[0], sq[0]))
+                wy = intern(('bin', '/', ns[1], sq[1]))
+                want = intern(('bin', '**', ('bin', '/', sy, sx), num(2)))
+                good = canon.equal(intern(('bin', '/', wx, wy)), want)
+        except Exception:
+            good = False
+        plain = all(not any(y[0] == 'call' and y[1] == 'numpy.diff' for y in subterms(a))
+                    for a in sq)
+        check.require(good and plain, 'T9-centre-pixel-sizes',
+                      'center_find weighting of the derivatives',
+                      'x derivative : y derivative carries (s_y / s_x)**2 when the '
+                      'steps differ, and nothing when they do not', loc,
+                      fail_detail='with unequal steps hough gets (%s, %s)' % tuple(
+                          show(a)[:70] for a in ns))
     check.require(ok, 'T9-centre-pixel-sizes', 'center_find -> hough derivatives',
                   'the voting directions are formed with the x and the y pixel size',
                   loc, fail_detail='hough(%s, %s): per-pixel derivatives as they come '
